@@ -460,7 +460,82 @@ def r7_followed(ctx):
     return out
 
 
+# ----------------------------------------------------------------------------------------
+# R8 path fidelity: the byte string the caller passed is the byte string the kernel sees
+# ----------------------------------------------------------------------------------------
+_PATHISH = re.compile(r"std::path::Path|std::ffi::CStr|std::ffi::OsStr|\*const i8|\*const u8|&str")
+
+
+def _fidelity(ctx, body, origins, depth=0):
+    """-> (ok, reason)"""
+    T = ctx.tracer
+    if depth > 6:
+        return False, "conversion chain too deep"
+    for o in origins:
+        if o.kind == "param" and o.body is body and not o.fpath:
+            continue
+        if o.kind == "const":
+            b = o.const_bytes()
+            if b is not None and "\\x00" not in b[:-4]:
+                continue
+            return False, "constant path with an interior NUL"
+        if o.kind == "call":
+            c = o.term.callee or ""
+            rty = o.term.rty or ""
+            if c in ("std::ffi::CStr::as_ptr", "std::ffi::CString::as_c_str", "std::ffi::CString::as_ptr", "std::ffi::CString::as_bytes_with_nul"):
+                ok, why = _fidelity(ctx, body, T.origins_of_arg(o.term, 0), depth + 1)
+                if not ok:
+                    return ok, why
+                continue
+            if rty.startswith("std::result::Result<std::ffi::CString") or c == "std::ffi::CString::new":
+                # fallible conversion: fine if applied to the parameter itself
+                ok, why = _fidelity(ctx, body, T.origins_of_arg(o.term, 0), depth + 1)
+                if not ok:
+                    return ok, why
+                # a conversion helper of the crate must itself be faithful to its argument
+                r = o.term.resolved
+                if ctx.facts.has(r):
+                    cb = ctx.facts.body(r)
+                    ros = [x for x in T.return_origins(cb) if not (x.kind == "call" and x.term.callee == "std::ops::FromResidual::from_residual")]
+                    ok, why = _fidelity(ctx, cb, ros, depth + 1)
+                    if not ok:
+                        return False, "conversion helper %s: %s" % (r, why)
+                continue
+            if rty == "std::ffi::CString" or rty.endswith("::CString"):
+                return False, ("%s converts a path to a C string infallibly: it must truncate at (or panic on) an interior NUL byte, "
+                               "so the kernel can see a different path than the one libpathrs validated" % c)
+            return False, "path argument produced by %s" % c
+        if o.kind == "mutated":
+            continue
+        return False, "path argument of unknown origin (%s)" % o.kind
+    return True, "the caller's path bytes, unmodified or through a fallible conversion"
+
+
+def r8_path_fidelity(ctx):
+    F = ctx.facts
+    T = ctx.tracer
+    out = []
+    items = []
+    for b in F.fn_bodies():
+        if b.file != "src/syscalls.rs" or b.kind == "closure":
+            continue
+        for t in b.calls():
+            if os_entry_class(t) != "path":
+                continue
+            for i, ty in enumerate(t.argtys):
+                if _PATHISH.search(ty) and not ty.startswith("&mut"):
+                    items.append((fn_key(b), "%s:arg%d" % (t.callee, i), (t, i)))
+    for key, (t, i) in ordinal_keys(items):
+        ok, why = _fidelity(ctx, t.body, T.origins_of_arg(t, i))
+        if ok:
+            out.append(holds("C05.R8", key, t.where(), why))
+        else:
+            out.append(violated("C05.R8", key, t.where(), why))
+    return out
+
+
 RULES = [
+    ("C05.R8", r8_path_fidelity, 18, False),
     ("C05.R1", r1_layering, 27, False),
     ("C05.R2", r2_forced_flags, 10, False),
     ("C05.R3", r3_site_shapes, 40, False),
